@@ -314,3 +314,175 @@ Proof.
   - vm_compute. reflexivity.
 Qed.
 Print Assumptions c14_example_warm.
+
+(* ==================================================================================================
+   Round 3: the index arithmetic and the decision logic of the MPI layer are REGENERATED from the current
+   source by translator/tr_mpi.py (Gen/MpiGen.v: enspara/mpi/ops.py, kcenters.py:_kcenters_iteration_mpi and
+   the mpi_mode branches of kcenters, kmedoids.py:ctr_ids_mpi / _msq / _propose_new_center_amongst / the MPI
+   branches of _kmedoids_pam_update) over the vocabulary Base/MpiGenBase.v (Python slices through Base/PySlice.v,
+   RaggedArray as rows, collectives as functions of the per-rank contributions).  Proof/MpiGenProofs.v proves
+   the generated definitions equal to the definitions of Model/Mpi.v, so the theorems above speak about what
+   the code says now; an edit of a stride, offset, owner test, tie-break, reduction or keyword either is
+   rejected by the translator or breaks one of the equalities below. *)
+From EV Require Import MpiGenBase MpiSlice MpiGen MpiGenProofs.
+
+(* ---- x[rank::size] of the source (CPython slice semantics, Base/PySlice.v) is the model's stripe *)
+Theorem c14_gen_slice_is_stripe : forall {A} (l : list A) r P, (1 <= P)%nat ->
+  nslice l (Some r) None (Some P) = every P r l.
+Proof. exact (fun A => @nslice_every A). Qed.
+Print Assumptions c14_gen_slice_is_stripe.
+
+(* ---- x[rank::size] = news of the source is the model's put_every (as many items as slots, else ValueError) *)
+Theorem c14_gen_slice_assign_is_put : forall {A} (l news : list A) r P, (1 <= P)%nat -> (r < P)%nat ->
+  nput_slice l (Some r) None (Some P) news
+  = if Nat.eqb (length (every P r l)) (length news) then Some (put_every P r news l) else None.
+Proof. exact (fun A => @nput_slice_every A). Qed.
+Print Assumptions c14_gen_slice_assign_is_put.
+
+(* ---- ops.convert_local_indices *)
+Theorem c14_gen_convert_local : forall P lens r i, (1 <= P)%nat ->
+  gen_cli_one P lens r i = convert_local P lens (r, i).
+Proof. exact gen_cli_one_is_model. Qed.
+Print Assumptions c14_gen_convert_local.
+
+(* ---- ops.assemble_striped_array *)
+Theorem c14_gen_assemble_striped_array : forall P locals, (1 <= P)%nat -> length locals = P ->
+  gen_assemble_striped_array P locals = assemble_flat P locals.
+Proof. exact gen_assemble_striped_array_is_model. Qed.
+Print Assumptions c14_gen_assemble_striped_array.
+
+(* ---- ops.assemble_striped_ragged_array: both branches (several rows / one row), every failure mode *)
+Theorem c14_gen_assemble_striped_ragged_array : forall {A} (fill : A) P lens locals, (1 <= P)%nat -> length locals = P ->
+  gen_assemble_striped_ragged_array fill P lens locals = assemble fill P lens locals.
+Proof. exact (fun A => @gen_assemble_striped_ragged_array_is_model A). Qed.
+Print Assumptions c14_gen_assemble_striped_ragged_array.
+
+(* ---- ops.striped_array_max / striped_array_mean *)
+Theorem c14_gen_striped_array_max : forall locals, gen_striped_array_max locals = striped_max locals.
+Proof. exact gen_striped_array_max_is_model. Qed.
+Print Assumptions c14_gen_striped_array_max.
+
+Theorem c14_gen_striped_array_mean : forall P locals, (1 <= P)%nat -> length locals = P ->
+  exists v, gen_striped_array_mean P locals = Some v /\ v == striped_mean locals.
+Proof. exact gen_striped_array_mean_is_model. Qed.
+Print Assumptions c14_gen_striped_array_mean.
+
+(* ---- ops.distribute_frame: every rank receives the owner's frame world_index (owner test, root of the Bcast,
+        rejection of owner_rank >= size; the other ranks only need one frame to shape their buffer) *)
+Theorem c14_gen_distribute_frame : forall {A} size (datas : list (list A)) world_index owner_rank,
+  length datas = size -> Forall (fun d => d <> []) datas ->
+  gen_distribute_frame size datas world_index owner_rank = nth_error (nth owner_rank datas []) world_index.
+Proof. exact (fun A => @gen_distribute_frame_spec A). Qed.
+Print Assumptions c14_gen_distribute_frame.
+
+(* ---- ops.randind: the cumulative-length search, and who draws / broadcasts *)
+Theorem c14_gen_randind : forall ns g, gen_randind (length ns) ns g = randind ns g.
+Proof. exact gen_randind_is_model. Qed.
+Print Assumptions c14_gen_randind.
+
+Theorem c14_gen_randind_draw : gen_randind_drawer = gen_randind_root /\ forall ns, gen_randind_bound ns = sum_nat ns.
+Proof. exact gen_randind_draw_is_broadcast. Qed.
+Print Assumptions c14_gen_randind_draw.
+
+(* ---- kcenters._kcenters_iteration_mpi: global argmax over the gathered local maxima (first maximum wins on both
+        levels), owner broadcast, masks, new label, appended pair *)
+Theorem c14_gen_kc_iter_mpi : forall D ti ds, dctr ds <> [] -> gen_kc_iter_mpi D ti ds = kc_iter_mpi D ti ds.
+Proof. exact gen_kc_iter_mpi_is_model. Qed.
+Print Assumptions c14_gen_kc_iter_mpi.
+
+Theorem c14_gen_kc_cold : forall {A} (ids : list (list A)), Forall (fun d => d <> []) ids ->
+  gen_kci_cold (@nil (nat * nat)) = true /\
+  gen_kci_new_center (length ids) ids gen_kci_cold_owner gen_kci_cold_index = nth_error (nth 0%nat ids []) 0%nat /\
+  gen_kci_pair gen_kci_cold_owner gen_kci_cold_index = (0%nat, 0%nat).
+Proof. exact (fun A => @gen_kc_cold_is_model A). Qed.
+Print Assumptions c14_gen_kc_cold.
+
+(* ---- kcenters in mpi_mode: the stopping test reads the allreduced maximum; the whole loop *)
+Theorem c14_gen_kc_guard_mpi : forall nclu cutoff ds, gen_kc_guard_mpi nclu cutoff ds = kc_guard_mpi nclu cutoff ds.
+Proof. exact gen_kc_guard_mpi_is_model. Qed.
+Print Assumptions c14_gen_kc_guard_mpi.
+
+Theorem c14_gen_kc_loop_mpi : forall D fuel nclu cutoff ti ds, dctr ds <> [] ->
+  gen_kc_loop_mpi D fuel nclu cutoff ti ds = kc_loop_mpi D fuel nclu cutoff ti ds.
+Proof. exact gen_kc_loop_mpi_is_model. Qed.
+Print Assumptions c14_gen_kc_loop_mpi.
+
+(* ---- kmedoids.ctr_ids_mpi, both input forms *)
+Theorem c14_gen_ctr_ids_pair : forall P lens tf, (1 <= P)%nat -> gen_cim_pair P lens tf = ctr_pair_mpi P lens tf.
+Proof. exact gen_cim_pair_is_model. Qed.
+Print Assumptions c14_gen_ctr_ids_pair.
+
+Theorem c14_gen_ctr_ids_flat : forall P lens g, (1 <= P)%nat -> gen_ctr_ids_mpi_flat P lens g = ctr_ids_mpi P lens g.
+Proof. exact gen_ctr_ids_mpi_flat_is_model. Qed.
+Print Assumptions c14_gen_ctr_ids_flat.
+
+(* ---- kmedoids._propose_new_center_amongst (MPI branch) and the MPI PAM step *)
+Theorem c14_gen_propose_mpi : forall ds cid g,
+  gen_propose_mpi (length (dloc ds)) (map (members_from cid 0) (dloc ds)) g = propose_mpi ds cid g.
+Proof. exact gen_propose_mpi_is_model. Qed.
+Print Assumptions c14_gen_propose_mpi.
+
+Theorem c14_gen_proposal_frame : forall {A} size (Xs : list (list A)) r idx i,
+  gen_prop_frame size Xs r idx i = gen_pam_proposal_frame size Xs (gen_prop_ind r idx i) /\
+  gen_pam_medoid_coord size Xs r i = gen_pam_proposal_frame size Xs (r, i).
+Proof. exact (fun A => @gen_prop_frame_is_pair A). Qed.
+Print Assumptions c14_gen_proposal_frame.
+
+Theorem c14_gen_pam_update_mpi : forall D ds cid prop, Forall (fun d => d <> []) (dloc ds) -> dloc ds <> [] ->
+  gen_pam_update_mpi D ds cid prop = pam_update_mpi D ds cid prop.
+Proof. exact gen_pam_update_mpi_is_model. Qed.
+Print Assumptions c14_gen_pam_update_mpi.
+
+(* ---- the property's clauses restated on the regenerated definitions *)
+Theorem c14_gen_kc_mpi_equals_serial : forall D P lens nclu cutoff ti L rest,
+  (1 <= P)%nat -> (P <= length lens)%nat -> lens = L :: rest -> (1 <= L)%nat ->
+  nonempty_locals P lens (seq 0 (sum_nat lens)) ->
+  tie_free_run D (S (sum_nat lens)) nclu cutoff ti (kc_first D (sum_nat lens)) ->
+  exists ds, gen_kcenters_mpi D P lens nclu cutoff ti = Some ds /\
+    let s' := kcenters_cold D nclu cutoff ti (sum_nat lens) in
+    gen_convert_local_indices P lens (dctr ds) = Some (fst s') /\
+    gen_assemble_striped_ragged_array 0%nat P lens (map (map lab) (dloc ds)) = Some (labels s') /\
+    gen_assemble_striped_ragged_array 0%Q P lens (map (map dist) (dloc ds)) = Some (dists s').
+Proof. exact gen_kc_mpi_equals_serial. Qed.
+Print Assumptions c14_gen_kc_mpi_equals_serial.
+
+Theorem c14_gen_assemble_scatter : forall {A} (fill : A) P lens (g : list A), (1 <= P)%nat -> (P <= length lens)%nat ->
+  length g = sum_nat lens -> gen_assemble_striped_ragged_array fill P lens (scatter P lens g) = Some g.
+Proof. exact (fun A => @gen_assemble_scatter A). Qed.
+Print Assumptions c14_gen_assemble_scatter.
+
+Theorem c14_gen_global_to_local_then_back : forall P lens g ri, (1 <= P)%nat ->
+  gen_ctr_ids_mpi_flat P lens g = Some ri -> gen_cli_one P lens (fst ri) (snd ri) = Some g /\ (fst ri < P)%nat.
+Proof. exact gen_global_to_local_then_back. Qed.
+Print Assumptions c14_gen_global_to_local_then_back.
+
+Theorem c14_gen_local_to_global_then_back : forall P lens r i g, (1 <= P)%nat -> (r < P)%nat ->
+  gen_cli_one P lens r i = Some g -> gen_ctr_ids_mpi_flat P lens g = Some (r, i) /\ (g < sum_nat lens)%nat.
+Proof. exact gen_local_to_global_then_back. Qed.
+Print Assumptions c14_gen_local_to_global_then_back.
+
+Theorem c14_gen_randind_bijection : forall ns,
+  (forall g, (g < sum_nat ns)%nat -> exists r i, gen_randind (length ns) ns g = Some (r, i) /\ (r < length ns)%nat /\ (i < nth r ns 0)%nat) /\
+  (forall g g' ri, gen_randind (length ns) ns g = Some ri -> gen_randind (length ns) ns g' = Some ri -> g = g') /\
+  (forall r i, (r < length ns)%nat -> (i < nth r ns 0)%nat -> exists g, (g < sum_nat ns)%nat /\ gen_randind (length ns) ns g = Some (r, i)).
+Proof. exact gen_randind_bijection. Qed.
+Print Assumptions c14_gen_randind_bijection.
+
+Theorem c14_gen_striped_reductions_serial : forall P lens (g : list fr), (1 <= P)%nat -> length g = sum_nat lens ->
+  Forall (fun loc => loc <> []) (scatter P lens g) ->
+  (exists v, gen_striped_array_max (map (map dist) (scatter P lens g)) = Some v /\ v == maxdist g) /\
+  (exists w, gen_striped_array_mean P (scatter P lens (map dist g)) = Some w /\ w == mean (map dist g)).
+Proof. exact gen_striped_reductions_serial. Qed.
+Print Assumptions c14_gen_striped_reductions_serial.
+
+(* a concrete run of the regenerated definitions: 3 ranks, trajectories of lengths 2,1,3,2 *)
+Example c14_example_gen :
+  gen_convert_local_indices 3 [2;1;3;2]%nat [(0,3); (1,0); (2,2)]%nat = Some [7; 2; 5]%nat /\
+  gen_assemble_striped_ragged_array 0%nat 3 [2;1;3;2]%nat [[10;11;16;17]; [12]; [13;14;15]]%nat = Some [10;11;12;13;14;15;16;17]%nat /\
+  gen_assemble_striped_array 3 [[2;2]; [1]; [3]]%nat = Some [2;1;3;2]%nat /\
+  map (gen_randind 2 [2;2]%nat) [0;1;2;3]%nat = [Some (0,0); Some (1,0); Some (0,1); Some (1,1)]%nat /\
+  gen_ctr_ids_mpi_flat 3 [2;1;3;2]%nat 7 = Some (0, 3)%nat /\
+  gen_kci_choice [[1;5;5]; [5;2]; [7;7;0]] = Some (2, 0)%nat /\
+  gen_distribute_frame 3 [[1;2]; [3]; [4;5;6]]%nat 1 2 = Some 5%nat.
+Proof. vm_compute. repeat split; reflexivity. Qed.
+Print Assumptions c14_example_gen.
